@@ -404,6 +404,14 @@ impl Client {
                 // handshake must have been received. Ignore that.
 
                 if frame.nonce_ack == state.local_nonce {
+                    if (frame.max_receive_alloc as usize) < self.config.endpoint_config.max_packet_size {
+                        // The server can not receive the packets this client may send (a server which
+                        // validated our SYN never advertises this). Forget the connection.
+                        self.events_out.push(Event::Error(ErrorType::Config));
+                        self.state = State::Fin;
+                        return;
+                    }
+
                     let reply = frame::Frame::HandshakeAckFrame(frame::HandshakeAckFrame {
                         nonce_ack: frame.nonce,
                     });
